@@ -151,6 +151,8 @@ structure JSt where
   flagged : List String := []         -- counters already reported
   stop : Bool := false
   idx : Nat := 0
+  anon : Nat := 0                     -- clones made by `clones n` (only counted)
+  pwrap : Bool := false               -- the program had more than 2^progRefBits - 1 holders
 
 def JSt.flag (j : JSt) (v : String) : JSt := { j with bad := v :: j.bad }
 
@@ -171,7 +173,7 @@ def maxHolders (s : St) : Nat := s.heap.foldl (fun m c => if c.live && c.ref > m
 def parseField (pfx : String) (t : String) : Option (List String) :=
   if t.startsWith pfx then some ((t.drop pfx.length).toString.splitOn ",") else none
 
-def expectStats (s : St) : List (String × Int) :=
+def expectStats (s : St) (anon : Nat) : List (String × Int) :=
   let lv := s.heap.filter (·.live)
   let arrs := lv.filter (·.kind == .arr)
   let maps := lv.filter (·.kind == .map)
@@ -181,7 +183,7 @@ def expectStats (s : St) : List (String × Int) :=
    ("total_mapping_nodes", ((maps.map (fun c => c.items.length / 2)).foldl (· + ·) 0 : Nat)),
    ("num_distinct_strings", ((lv.filter (·.kind.isStr)).length : Int)),
    ("allocd_strings", 0),
-   ("tot_alloc_object", ((lv.filter (·.kind == .obj)).length : Int))]
+   ("tot_alloc_object", (((lv.filter (·.kind == .obj)).length + anon : Nat) : Int))]
 
 /-- compare one `ok r:.. st:..` line with the specification state -/
 def judgeOk (j : JSt) (s : St) (rs sts : List String) : JSt := Id.run do
@@ -211,7 +213,7 @@ def judgeOk (j : JSt) (s : St) (rs sts : List String) : JSt := Id.run do
             if cell.kind.isStr && j.immortal.contains c && rv == 0 then pure ()
             else
               j := j.flag s!"ref-mismatch op={j.idx} cell={c} kind={k} ref={rv} holders={cell.ref}{wrapSfx (j.wrap || cell.ref ≥ 2 ^ W)}"
-  let exp := expectStats s
+  let exp := expectStats s j.anon
   for ((name, want), got) in exp.zip sts do
     if name == "allocd_strings" || got == "-" then pure ()
     else if name == "num_distinct_strings" then
@@ -227,9 +229,30 @@ def judgeOk (j : JSt) (s : St) (rs sts : List String) : JSt := Id.run do
                        else s!"counter-low op={j.idx} counter={name} by={d}{wrapSfx j.wrap}")
   return j
 
+/-- holders of the harness program: the blueprint and every object structure that is still allocated -/
+def progHolders (s : St) (anon : Nat) : Nat :=
+  1 + ((s.heap.filter (fun c => c.live && c.kind == .obj)).length) + anon
+
+def judgeProg (j : JSt) (s : St) (pf : String) : JSt :=
+  let want := progHolders s j.anon
+  let j := { j with pwrap := j.pwrap || want ≥ 2 ^ NV.Gen.C06.progRefBits }
+  if pf == "p:x" then
+    j.flag s!"freed-while-held op={j.idx} kind=program holders={want}{wrapSfx j.pwrap}"
+  else match (pf.drop 2).toString.toNat? with
+    | some r =>
+      if r != want then j.flag s!"ref-mismatch op={j.idx} kind=program ref={r} holders={want}{wrapSfx j.pwrap}" else j
+    | none => j.flag s!"trace-mismatch op={j.idx} field={pf}"
+
 def judgeLine (j : JSt) (op : Option Op) (line : String) : JSt :=
   if j.stop then j else
   let j := { j with idx := j.idx + 1 }
+  -- the program counter probe: only the number of anonymous clones changes
+  let (j, op) := match op with
+    | some (.clones n) => (if line.startsWith "ok" then { j with anon := j.anon + n } else j, some (Op.efun 0 0 0))
+    | some (.unclone n) =>
+      if j.anon < n || !j.s.dlist.isEmpty then (j, none)
+      else (if line.startsWith "ok" then { j with anon := j.anon - n } else j, some (Op.efun 0 0 0))
+    | o => (j, o)
   let exp : Option (M St) := match op with
     | none => none
     | some op => specStep j.s op
@@ -240,16 +263,21 @@ def judgeLine (j : JSt) (op : Option Op) (line : String) : JSt :=
   | some (.ok s') =>
     let j := noteRanges (noteRanges j j.s) s'
     match toks line with
-    | ["ok", r, st] =>
+    | ["ok", r, st, pf] =>
       match parseField "r:" r, parseField "st:" st with
-      | some rs, some sts => { (judgeOk j s' rs sts) with s := s' }
+      | some rs, some sts => { (judgeProg (judgeOk j s' rs sts) s' pf) with s := s' }
       | _, _ => { (j.flag s!"trace-mismatch op={j.idx} line={line}") with stop := true }
     | ["skip"] => { (j.flag s!"trace-mismatch op={j.idx} got=skip") with stop := true }
     | _ =>
       let h := Nat.max (maxHolders j.s) (maxHolders s')
       let l := line
       if l == "uaf" || (l.splitOn "heap-use-after-free").length > 1 || (l.splitOn "double-free").length > 1 then
-        { (j.flag s!"use-after-free op={j.idx} max-holders={h}{wrapSfx j.wrap}") with stop := true }
+        let ph := progHolders s' j.anon
+        let pw := j.pwrap || ph ≥ 2 ^ NV.Gen.C06.progRefBits
+        if pw && !j.wrap then
+          { (j.flag s!"use-after-free op={j.idx} kind=program holders={ph} ref-wrap") with stop := true }
+        else
+          { (j.flag s!"use-after-free op={j.idx} max-holders={h}{wrapSfx j.wrap}") with stop := true }
       else if l == "fatal" || l == "objvars" then
         { (j.flag s!"use-after-free op={j.idx} driver-fatal max-holders={h}{wrapSfx j.wrap}") with stop := true }
       else { (j.flag s!"crash op={j.idx} {l}") with stop := true }
